@@ -30,6 +30,10 @@ func init() {
 			Calls: []string{"toUnstructured", "GroupVersionResource", "Create", "IsAlreadyExists", "RetryOnConflict", "Get", "DeepCopy", "SetResourceVersion", "Update"}},
 		skelTarget{Name: "ShellOperator.handleRunHook", File: "pkg/shell-operator/operator.go", Recv: "ShellOperator", Func: "handleRunHook",
 			Calls: []string{"Run", "ParseOperations", "ExecuteOperations", "GetPatchStatusOperationsOnHookError", "SendBatch", "SetProp"}},
+		// the patch file of a run: a name with a fresh uuid per call, written empty (Model/Patch: FStep.prepare,
+		// `path` injective in `overlapping_runs_read_own`); Hook.Run itself is declared in targets_c12.go
+		skelTarget{Name: "Hook.prepareObjectPatchFile", File: "pkg/hook/hook.go", Recv: "Hook", Func: "prepareObjectPatchFile",
+			Calls: []string{"Join", "Sprintf", "SafeName", "Must", "NewV4", "String", "WriteFile"}},
 	)
 	factFns = append(factFns, c13Facts)
 }
